@@ -137,7 +137,7 @@ func c10Seeded(tier string) int {
 	if tier == "thorough" {
 		return 20000
 	}
-	return 1500
+	return 3000
 }
 
 func (p *c10) NumCases(tier string) int {
